@@ -52,7 +52,7 @@ def flen(cfg):
 
 class Elem:
     """one data element of a symbolic message"""
-    def __init__(self, bit, cfg, tag='', short_ok=False, over=False, maxvar=None):
+    def __init__(self, bit, cfg, tag='', short_ok=False, over=False, maxvar=None, minvar=1):
         self.bit = bit
         self.cfg = cfg
         self.key = 'DE%d' % bit
@@ -110,7 +110,7 @@ class Elem:
         else:
             top = 10 ** flen(cfg) - 1
             hi = top + 25 if over else (top if maxvar is None else min(top, maxvar))
-            L = sym_int(name + '_len', 1, hi)
+            L = sym_int(name + '_len', minvar, hi)
             src = Source(name, 't', L)
             self.value = src.rope()
             self.expect = self.value
@@ -156,9 +156,15 @@ def elem_class(cfg):
     return cfg['field_type']
 
 
-def build_message(bits, mti='1240', cfgs=None, **kw):
+def build_message(bits, mti='1240', cfgs=None, special_only=None, **kw):
+    """special_only: index of the one element that gets the boundary options (short fixed / over-long variable);
+    keeps the number of paths linear in the number of elements"""
     cfgs = cfgs or bit_config()
-    elems = [Elem(b, cfgs[str(b)], **kw) for b in bits]
+    if special_only is None:
+        elems = [Elem(b, cfgs[str(b)], **kw) for b in bits]
+    else:
+        plain = {k: v for k, v in kw.items() if k not in ('short_ok', 'over', 'minvar')}
+        elems = [Elem(b, cfgs[str(b)], **(kw if i == special_only else plain)) for i, b in enumerate(bits)]
     msg = {'MTI': mti}
     for e in elems:
         msg[e.key] = e.value
